@@ -67,7 +67,9 @@ def plan_C01(chk, tier, seed):
             "members of every nested map, full requests, every sub-command, every member over the lattice of its type one "
             "at a time, every pair of members at the extremes and every triple at the upper ends, one odd entry at "
             "every position of the long lists, requests whose members are each legal and whose total crosses the "
-            "7609-byte transport limit (7608..16384); TLC checks DecodeFaithful / "
+            "7609-byte transport limit and 2^16 (7608..65537); every permutation of the members of every nested "
+            "text-keyed map; the words of the source's dictionary and the texts standard parsers treat specially in "
+            "every text member; every member once per sub-command and per PIN protocol; TLC checks DecodeFaithful / "
             "KeyAttribution on the model and emits one vector per case, replayed through "
             "ctap2::Request::deserialize; a vector is non-trivial when it decodes a distinct message")
 
@@ -135,7 +137,9 @@ def plan_C02(chk, tier, seed):
             "otherwise {}, all pairs, full), statement shapes, COSE key kinds, integer/byte/list lattices; TLC checks "
             "EncodeExact on the model (generic parser vs table) and emits vectors replayed through "
             "ctap2::Response::serialize and cbor_serialize; member pairs / triples at the extremes of their types; every "
-            "kind of response into buffers that are not fresh (1..20 previous bytes, two-exchange histories); "
+            "kind of response into buffers that are not fresh (1..20 previous bytes, two-exchange histories); signatures "
+            "and certificate slots holding DER (complete, padded, chained, cut off); GetInfo's size members against "
+            "each other at real transport values; "
             "deviating vectors are adjudicated by the trace "
             "specification on the OBSERVED bytes (same pair set, status byte, no null)")
 
